@@ -227,6 +227,27 @@ func vRunCacheCase(t *testing.T, cs *vCacheCase) []string {
 				c.storedItems.Cleanup(c.cachePolicy, c.onEvict)
 				r.armed = nil
 				res = "ok"
+			case "sweepit":
+				// a sweep during which the first OnEvict enumerates the cache (IterValues runs between the sweep's bucket
+				// grab and its per-key removals: the other keys of the bucket are expired, still stored, and no longer
+				// in the expiry index)
+				r.armed = func(first uint64) {
+					var vs []uint64
+					c.IterValues(func(v uint64) bool { vs = append(vs, v); return false })
+					sort.Slice(vs, func(i, j int) bool { return vs[i] < vs[j] })
+					ss := make([]string, len(vs))
+					for i, v := range vs {
+						ss[i] = fmt.Sprint(v)
+					}
+					x := strings.Join(ss, "+")
+					if x == "" {
+						x = "-"
+					}
+					r.addCb(fmt.Sprintf("rwset:%d:%s", first, x))
+				}
+				c.storedItems.Cleanup(c.cachePolicy, c.onEvict)
+				r.armed = nil
+				res = "ok"
 			case "tick":
 				time.Sleep(time.Duration(vi(op[1])))
 				res = "ok"
